@@ -30,7 +30,9 @@ type specCtx struct {
 	pkg       string
 	tparamOf  map[string]types.Type
 	inOld     bool
-	expanding map[string]bool // tracked objects whose model is being expanded (ownership is acyclic)
+	expanding map[string]bool   // tracked objects whose model is being expanded (ownership is acyclic)
+	preHeap   map[string]string // hints: the heap just before the call the hint is attached to
+	preNow    string
 }
 
 func (sc *specCtx) withVar(name string, v Val) *specCtx {
@@ -147,7 +149,15 @@ func (sc *specCtx) eval(e Expr) Val {
 	case *SliceE:
 		x := sc.eval(e.X)
 		if x.S == SSlice {
-			x = sc.viewOfSlice(x)
+			// a Go sub-slice, built exactly as the SSA Slice instruction builds it
+			lo, hi := "0", app("sl_len", x.T)
+			if e.Lo != nil {
+				lo = sc.eval(e.Lo).T
+			}
+			if e.Hi != nil {
+				hi = sc.eval(e.Hi).T
+			}
+			return Val{T: fmt.Sprintf("(mk_slice (sl_arr %s) (+ (sl_off %s) %s) (- %s %s) (- (sl_cap %s) %s))", x.T, x.T, lo, hi, lo, x.T, lo), S: SSlice, GT: x.GT}
 		}
 		if x.S != SSeq {
 			specFail("cannot slice %s", e.X)
@@ -530,6 +540,17 @@ func (sc *specCtx) evalCall(e *CallE) Val {
 		n.now = sc.oldNow
 		n.inOld = true
 		return n.eval(e.Args[0])
+	case "pre":
+		if len(e.Args) != 1 {
+			specFail("pre expects one argument")
+		}
+		if sc.preHeap == nil {
+			specFail("pre() is only available in hints")
+		}
+		n := *sc
+		n.heap = sc.preHeap
+		n.now = sc.preNow
+		return n.eval(e.Args[0])
 	case "len":
 		a := args(1)
 		switch a[0].S {
@@ -557,6 +578,15 @@ func (sc *specCtx) evalCall(e *CallE) Val {
 	case "off":
 		a := args(1)
 		return intVal(app("sl_off", a[0].T))
+	case "rawat":
+		// rawat(slice, j): element j (absolute index) of the slice's backing array
+		a := args(2)
+		if a[0].S != SSlice {
+			specFail("rawat of a non-slice")
+		}
+		rn, rs := elemsRegion(SU)
+		r := sc.fc.regionIn(sc.st, sc.heap, rn, rs)
+		return Val{T: sel(sel(r, app("sl_arr", a[0].T)), a[1].T), S: SU}
 	case "ite":
 		a := args(3)
 		sc.want(a[0], SBool, e)
@@ -661,12 +691,19 @@ func (sc *specCtx) evalCall(e *CallE) Val {
 		if !ok {
 			specFail("unchanged(model): model name expected")
 		}
-		ms, ok := sc.fc.e.contracts.Models[id.Name]
-		if !ok || sc.old == nil {
-			specFail("unchanged(%s): unknown model", id.Name)
+		var cur, ent string
+		if id.Name == "elems" {
+			rn, rs := elemsRegion(SU)
+			cur = sc.fc.regionIn(sc.st, sc.heap, rn, rs)
+			ent = sc.fc.regionIn(sc.st, sc.old, rn, rs)
+		} else {
+			ms, ok := sc.fc.e.contracts.Models[id.Name]
+			if !ok || sc.old == nil {
+				specFail("unchanged(%s): unknown model", id.Name)
+			}
+			cur = sc.fc.regionIn(sc.st, sc.heap, "M."+id.Name, regionArraySort(sortByName(ms)))
+			ent = sc.fc.regionIn(sc.st, sc.old, "M."+id.Name, regionArraySort(sortByName(ms)))
 		}
-		cur := sc.fc.regionIn(sc.st, sc.heap, "M."+id.Name, regionArraySort(sortByName(ms)))
-		ent := sc.fc.regionIn(sc.st, sc.old, "M."+id.Name, regionArraySort(sortByName(ms)))
 		guard := []string{fmt.Sprintf("(< (atime o) %s)", sc.oldNow)}
 		for _, ex := range e.Args[1:] {
 			x := sc.eval(ex)
